@@ -163,6 +163,10 @@ func enumCases() []enumCase {
 		{Name: "fail_alias_two_actions", Src: enumDef{"int", []enumMember{{"Red", "0"}, {"Green", "1"}, {"Blue", "2"}, {"Azure", "2"}}}, Tgt: rgb("int", "7", "8", "9"),
 			Lines: []string{"enum:map Blue @error", "enum:map Azure @ignore"}, Mapping: same, Fail: "members with equal values map to different actions"},
 		{Name: "fail_no_unknown", Src: rgb("int", "0", "1", "2"), Tgt: rgb("int", "7", "8", "9"), Mapping: same, Unknown: "none", Fail: "enum:unknown missing"},
+		{Name: "fail_no_unknown_every_member_mapped", Src: rgb("int", "0", "1", "2"), Tgt: rgb("int", "7", "8", "9"),
+			Lines: []string{"enum:map Red Red", "enum:map Green Green", "enum:map Blue Blue"}, Mapping: same, Unknown: "none", Fail: "enum:unknown missing (every member is listed by an enum:map line)"},
+		{Name: "fail_map_three_fields", Src: rgb("int", "0", "1", "2"), Tgt: rgb("int", "7", "8", "9"),
+			Lines: []string{"enum:map Red Green Blue"}, Mapping: same, Fail: "enum:map with three fields"},
 		// a member without a target of its name is an error also when another member of the same value has one
 		{Name: "fail_alias_member_without_target", Src: enumDef{"int", []enumMember{{"Red", "0"}, {"Green", "1"}, {"Blue", "2"}, {"Teal", "2"}}}, Tgt: rgb("int", "7", "8", "9"),
 			Mapping: same, Fail: "source member Teal has no target (Blue, a member of equal value, has one)"},
@@ -597,6 +601,20 @@ func FamilyEnum(thorough bool) []*Conv {
 			Aux:        map[string]string{"pfxsrc": ec.Src.source("pfxsrc", "Color"), "pfxtgt": ec.Tgt.source("pfxtgt", "Color")},
 			Imports:    []string{`pfxsrc "corpus/GRP/pfxsrc"`, `pfxtgt "corpus/GRP/pfxtgt"`},
 			ExpectFail: true, FailNote: "enum settings on a method that delegates to an extend function of the same signature (" + w.name + ")",
+		})
+	}
+	// a constant of the target package that merely carries the name of a missing member (another type, untyped) is
+	// no member of the target enum
+	for i, extra := range []string{"const Blue = 7\n", "type Other int\n\nconst Blue Other = 7\n"} {
+		src := enumDef{"int", []enumMember{{"Red", "0"}, {"Green", "1"}, {"Blue", "2"}}}
+		tgt := enumDef{"int", []enumMember{{"Red", "7"}, {"Green", "8"}}}
+		out = append(out, &Conv{
+			ID: fmt.Sprintf("enum/fail_member_name_is_a_foreign_constant_%d", i), Family: "enum", Format: []string{"struct", "function", "variable"}[i%3], Solo: true,
+			Params: "source pfxsrc.Color", Results: "pfxtgt.Color", ConvLines: []string{"enum:unknown @panic"},
+			Spec:       &Spec{},
+			Aux:        map[string]string{"pfxsrc": src.source("pfxsrc", "Color"), "pfxtgt": tgt.source("pfxtgt", "Color") + "\n" + extra},
+			Imports:    []string{`pfxsrc "corpus/GRP/pfxsrc"`, `pfxtgt "corpus/GRP/pfxtgt"`},
+			ExpectFail: true, FailNote: "source member Blue has no target member (the target package has a constant Blue of another type)",
 		})
 	}
 	// enums declared in the converter's own package with an unexported member; output into that package
